@@ -364,7 +364,8 @@ func migScenario(r *RunCtx) {
 		return
 	}
 	created := 0
-	for id, st := range m {
+	for _, id := range sortedBy(m, chidStr) {
+		st := m[id]
 		v := recs[id]
 		if v == nil {
 			created++ // channel opened by an early op after readiness
@@ -444,7 +445,7 @@ func migScenario(r *RunCtx) {
 		r.Failf("C13", "channel-count", fmt.Sprintf("stored=%d listed=%d", len(recs), len(m)-created), "%d version-2 channels were stored, %d are listed after migration", len(recs), len(m)-created)
 	}
 	// no version-2 key survives; version key says 3
-	for k := range n.Disk.m {
+	for _, k := range sortedKeys(n.Disk.m) {
 		if strings.HasPrefix(k, "/2/") {
 			r.Failf("C13", "old-key-left", "", "after migration the datastore still holds %s", k)
 		}
